@@ -352,6 +352,120 @@ def s2Rows (k l : Nat) (c s ch sh : ℝ) : Q → List (Q × ℝ)
     else if i = l then [((l, true), ch), ((k, false), sh * s), ((k, true), -(sh * c))]
     else idRow (i, true)
 
+/-! ### matrix-parametrised single-mode operations -/
+
+theorem matMul_length (n : Nat) (X Y : List Rat) : (matMul n X Y).length = n * n := by
+  simp [matMul, List.length_flatMap]
+
+/-- real value of the `i`-th entry of a row-major matrix -/
+def me (A : List Rat) (i : Nat) : ℝ := ((A.getD i 0 : ℚ) : ℝ)
+
+theorem matMul2_entries (B A : List Rat) :
+    me (matMul 2 B A) 0 = me B 0 * me A 0 + me B 1 * me A 2 ∧
+    me (matMul 2 B A) 1 = me B 0 * me A 1 + me B 1 * me A 3 ∧
+    me (matMul 2 B A) 2 = me B 2 * me A 0 + me B 3 * me A 2 ∧
+    me (matMul 2 B A) 3 = me B 2 * me A 1 + me B 3 * me A 3 := by
+  simp [me, matMul, List.range_succ]
+
+theorem matMul1_entries (B A : List Rat) : me (matMul 1 B A) 0 = me B 0 * me A 0 := by
+  simp [me, matMul, List.range_succ]
+
+/-- `GaussianTransform(S)` with a 2×2 symplectic `S` acting on `(x, p)`; `PassiveChannel([[t]])`: amplitude
+`t`, i.e. `X = t·1`, `Y = (1 − t²)·1`; `Interferometer([[t]])` with a real 1×1 unitary (`t = ±1`): `X = t·1` -/
+def D1 (cls : String) (k : Nat) (A : List Rat) : Loc :=
+  if Nat.sqrt A.length = 2 then
+    (if cls = "GaussianTransform" then loc1 k (m2 (me A 0) (me A 1) (me A 2) (me A 3)) zero2 zerov else idLoc)
+  else if Nat.sqrt A.length = 1 then
+    (if cls = "PassiveChannel" then
+      loc1 k (m2 (me A 0) 0 0 (me A 0)) (m2 (1 - me A 0 * me A 0) 0 0 (1 - me A 0 * me A 0)) zerov
+     else if cls = "Interferometer" then loc1 k (m2 (me A 0) 0 0 (me A 0)) zero2 zerov
+     else idLoc)
+  else idLoc
+
+theorem D1_W (cls : String) (k : Nat) (A : List Rat) : ∀ u ∈ (D1 cls k A).W, u.1 = k := by
+  intro u hu
+  unfold D1 at hu
+  split_ifs at hu <;>
+    first
+    | (have hu' : u ∈ quads k := hu
+       rcases mem_quads.1 hu' with rfl | rfl <;> rfl)
+    | (simp [idLoc] at hu)
+
+theorem D1_mul (cls : String) (k : Nat) (A B : List Rat) (hlen : A.length = B.length) :
+    (D1 cls k (matMul (Nat.sqrt A.length) B A)).act = (D1 cls k A).act * (D1 cls k B).act := by
+  have hB : Nat.sqrt B.length = Nat.sqrt A.length := by rw [hlen]
+  by_cases h2 : Nat.sqrt A.length = 2
+  · have hr : Nat.sqrt (matMul 2 B A).length = 2 := by rw [matMul_length]; exact Nat.sqrt_eq 2
+    obtain ⟨e0, e1, e2, e3⟩ := matMul2_entries B A
+    rw [h2]
+    unfold D1
+    rw [hr, h2, hB, h2]
+    simp only [if_true]
+    split_ifs
+    · rw [loc1_mul]
+      apply loc1_congr
+      · intro i j; cases i <;> cases j <;> simp [mul2, e0, e1, e2, e3]
+      · intro i j; simp [congY, zero2]
+      · intro i; simp [mulv, zerov]
+    · simp [idLoc_act]
+  · by_cases h1 : Nat.sqrt A.length = 1
+    · have hr : Nat.sqrt (matMul 1 B A).length = 1 := by rw [matMul_length]; exact Nat.sqrt_eq 1
+      have e0 := matMul1_entries B A
+      rw [h1]
+      unfold D1
+      rw [hr, h1, hB, h1]
+      simp only [if_true, show ¬ (1 = 2) by decide, if_false]
+      split_ifs
+      · rw [loc1_mul]
+        apply loc1_congr
+        · intro i j; cases i <;> cases j <;> simp [mul2, e0]
+        · intro i j; cases i <;> cases j <;> simp [congY, e0] <;> ring
+        · intro i; simp [mulv, zerov]
+      · rw [loc1_mul]
+        apply loc1_congr
+        · intro i j; cases i <;> cases j <;> simp [mul2, e0]
+        · intro i j; simp [congY, zero2]
+        · intro i; simp [mulv, zerov]
+      · simp [idLoc_act]
+    · have hr : Nat.sqrt (matMul (Nat.sqrt A.length) B A).length = Nat.sqrt A.length := by
+        rw [matMul_length]; exact Nat.sqrt_eq _
+      unfold D1
+      rw [hr, hB]
+      simp only [h2, h1, if_false, idLoc_act, mul_one]
+
+theorem identMat_length (n : Nat) : (identMat n).length = n * n := by
+  simp [identMat, List.length_flatMap]
+
+theorem D1_one (cls : String) (k n : Nat) : (D1 cls k (identMat n)).act = 1 := by
+  unfold D1
+  rw [identMat_length, Nat.sqrt_eq n]
+  by_cases h2 : n = 2
+  · subst h2
+    simp only [if_true]
+    split_ifs
+    · rw [← loc1_one k]
+      apply loc1_congr
+      · intro i j; cases i <;> cases j <;> simp [one2, me, identMat, List.range_succ]
+      · intro i j; rfl
+      · intro i; rfl
+    · exact idLoc_act
+  · by_cases h1 : n = 1
+    · subst h1
+      simp only [show ¬ (1 = 2) by decide, if_false, if_true]
+      split_ifs
+      · rw [← loc1_one k]
+        apply loc1_congr
+        · intro i j; cases i <;> cases j <;> simp [one2, me, identMat, List.range_succ]
+        · intro i j; cases i <;> cases j <;> simp [zero2, me, identMat, List.range_succ]
+        · intro i; rfl
+      · rw [← loc1_one k]
+        apply loc1_congr
+        · intro i j; cases i <;> cases j <;> simp [one2, me, identMat, List.range_succ]
+        · intro i j; rfl
+        · intro i; rfl
+      · exact idLoc_act
+    · simp only [h2, h1, if_false, idLoc_act]
+
 /-! ### the interpretation of commands -/
 
 /-- real value of a parameter -/
@@ -434,6 +548,10 @@ def gloc (θ : Nat → Rat) (c : Cmd) : Loc :=
       | _ => idLoc
     | .prep => prepLoc k (prepV θ c.cls c.pars) (prepMu θ c.cls c.pars)
     | .fourier => fourierLoc k c.dagger
+    | .matrix =>
+      match parsNums c.pars with
+      | some A => D1 c.cls k A
+      | none => idLoc
     | _ => idLoc
   | [k, l] =>
     match ruleOf c.cls with
@@ -500,6 +618,9 @@ theorem gloc_W (θ : Nat → Rat) (c : Cmd) : ∀ u ∈ (gloc θ c).W, u.1 ∈ c
         rcases mem_quads.1 hu with rfl | rfl <;> rfl
       · unfold fourierLoc at hu
         split_ifs at hu <;> (simp only [loc1_W] at hu; rcases mem_quads.1 hu with rfl | rfl <;> rfl)
+      · split at hu
+        · exact D1_W _ _ _ u hu
+        · simp [idLoc] at hu
       · simp [idLoc] at hu
     simp [this]
   · rename_i k l hk
@@ -637,7 +758,9 @@ def gaussLawful2 (θ : Nat → Rat) : Lawful Dom2 (gf θ) where
   C := fun cls r t x => match r with
     | [k] => (C1 θ cls k t ((x : ℚ) : ℝ)).act
     | _ => 1
-  D := fun _ _ _ => 1
+  D := fun cls r A => match r with
+    | [k] => (D1 cls k A).act
+    | _ => 1
   f_id := fun _ _ => rfl
   gate_f := by
     intro c p t hd hr _ hp
@@ -718,13 +841,23 @@ def gaussLawful2 (θ : Nat → Rat) : Lawful Dom2 (gf θ) where
       · exact idLoc_act
     · rfl
   mat_f := by
-    intro c A hd hr _
+    intro c A hd hr hp
     rcases hd with hd | ⟨k, l, hk, _⟩
     · obtain ⟨k, hk⟩ := List.length_eq_one_iff.1 hd
-      simp only [gf, gloc, hk, hr, idLoc_act]
+      simp only [gf, gloc, hk, hr, hp]
     · simp only [gf, gloc, hk, hr, idLoc_act]
-  mat_mul := by intros; simp
-  mat_one := by intros; rfl
+  mat_mul := by
+    intro cls r A B hd hlen
+    rcases hd with hd | ⟨k, l, rfl, _⟩
+    · obtain ⟨k, rfl⟩ := List.length_eq_one_iff.1 hd
+      exact D1_mul cls k A B hlen
+    · simp
+  mat_one := by
+    intro cls r n hd
+    rcases hd with hd | ⟨k, l, rfl, _⟩
+    · obtain ⟨k, rfl⟩ := List.length_eq_one_iff.1 hd
+      exact D1_one cls k n
+    · rfl
   prep_absorb := by
     intro a b hd ha hb hr _ _
     rcases hd with hd | ⟨k, l, hk, _⟩
